@@ -33,6 +33,8 @@ Arguments Ok {A} a. Arguments Err {A} e.
 Definition bind {A B} (r : res A) (f : A -> res B) : res B := match r with Ok a => f a | Err e => Err e end.
 
 Definition bs (l : list N) : string := string_of_list_ascii (map ascii_of_N l).
+(* lines joined by newline characters: how the harness writes multi-line texts *)
+Definition ln (l : list string) : string := String.concat (String (ascii_of_N 10) EmptyString) l.
 Definition mkL (xs : list obj) : obj := match xs with [] => Nil | _ => L xs end.
 Definition quote (x : obj) : obj := L [Sym "quote"; x].
 Definition elems_of (o : obj) : option (list obj) := match o with Nil => Some [] | L xs => Some xs | _ => None end.
